@@ -160,3 +160,25 @@ Definition spaced (qs : list str) : str := flat_map (fun q => c_sp :: q) qs.
    bracket expression across the [=].  Everything else is safe. *)
 Definition pair_safe (qws : N -> bool) (n v : str) : bool :=
   str_needs_quoting qws n || negb (mem c_lbrk n) || negb (mem c_rbrk v).
+
+(* an operand of a declaration utility as the printers write it: a quoted
+   word (an option, "--", a name without value) or name=Qvalue *)
+Inductive operand := OpWord (s : str) | OpAssign (name value : str).
+
+Definition operand_text (qws : N -> bool) (o : operand) : str :=
+  match o with
+  | OpWord s => quote qws s
+  | OpAssign n v => n ++ c_eq :: quote qws v
+  end.
+
+Definition operand_field (o : operand) : str :=
+  match o with
+  | OpWord s => s
+  | OpAssign n v => n ++ c_eq :: v
+  end.
+
+Definition operand_ok (o : operand) : bool :=
+  match o with
+  | OpWord _ => true
+  | OpAssign n _ => simple_word n
+  end.
